@@ -236,8 +236,8 @@ Proof. exact OsuRateProofs.osu_rate_preview_line. Qed.
    C03's exact domain c03_domb (decidable; closure of that domain under rate is not proved).  Every exact rendering of the
    written tokens is a well-formed .sm text with beat 0 at offset / r, the sample window at start / r and length / r, the
    text fields unchanged, and the source's charts in order: per kind of object the denoted objects are the source's up to
-   order, in their columns, at EXACTLY time / r with length / r.  (C03's theorem does not state the denoted tempo list;
-   bpm * r in #BPMS is covered by the per-run oracle only.) ---- *)
+   order, in their columns, at EXACTLY time / r with length / r; the denoted tempo list (C03_sm_write_tempo) has one point per
+   tempo row of the source, at offset / r ms with bpm * r. ---- *)
 Theorem C13_sm_rate_survives_write : forall r s, SMWriteWholeFile.c03_domb (SMRate.sm_set_rate r s) = true ->
   exists toks, SM.sm_write SMProofs.live_conf SM.current (SMRate.sm_set_rate r s) = Some toks /\
     forall txt, SM.match_toks 0 toks txt = true ->
@@ -245,7 +245,8 @@ Theorem C13_sm_rate_survives_write : forall r s, SMWriteWholeFile.c03_domb (SMRa
                 Forall2 (SMRate.chart_survives r) (SMSpec.d_charts d) (SM.s_maps s) /\
                 SMSpec.forallb2 (fun tag v => match SMSpec.lookup_last tag (SMSpec.d_items d) None with
                                               | Some x => SMText.text_eqb x v | None => false end)
-                                SMSpec.text_field_tags (SM.s_txt s) = true.
+                                SMSpec.text_field_tags (SM.s_txt s) = true /\
+                SMRate.tempo_survives r s d.
 Proof. exact SMRateProofs.sm_rate_survives_write. Qed.
 
 (* ---- BMS: by composition with C05's whole-file writer theorem, for every chart and rate whose RATED chart lies in C05's
